@@ -53,6 +53,16 @@ Theorem C02_verify_commit_sound :
 Proof. exact verify_commit_sound. Qed.
 Print Assumptions C02_verify_commit_sound.
 
+(** ... and every non-absent slot of an accepted commit names the validator of its position (the
+    address is outside the sign bytes but weighs the slot's timestamp in the block-time median). *)
+Theorem C02_verify_commit_addresses :
+  forall vals chain want h c,
+    verify_commit vals chain want h c = COk ->
+    forall i val cs, nth_error vals i = Some val -> nth_error (c_sigs c) i = Some cs ->
+      N.eqb (cs_flag cs) FLAG_ABSENT = false -> cs_addr cs = val_addr val.
+Proof. exact verify_commit_addresses. Qed.
+Print Assumptions C02_verify_commit_addresses.
+
 (** Each validator's power is counted at most once whatever it sends: in every reachable vote
     set, [sum] is the exact total of the powers of the positions that hold a vote, every
     per-block sum is the exact total of the positions of that block's entry, no int64 addition
